@@ -391,12 +391,18 @@ build zz: huge
 build all: phony a1 a2 zz
 default all
 """ % ("x" * 200000), 2, []),
+    # ... or for which no pipe can be made: ninja is out of file descriptors (a low `ulimit -n`, many job slots)
+    "jobserver/pipe_fails": ("""rule slow
+  command = echo S $out $$(date +%s.%N) >> log; sleep 0.8; echo E $out $$(date +%s.%N) >> log; touch $out
+""" + "".join("build s%d: slow\n" % i for i in range(12)) + "build all: phony " + " ".join("s%d" % i for i in range(12)) + "\ndefault all\n",
+                             11, [], 16),
 }
 
 
 def _js_extra_case(args):
     name, ninja = args
-    manifest, tokens, nargs = JS_EXTRA[name]
+    manifest, tokens, nargs = JS_EXTRA[name][:3]
+    nofile = JS_EXTRA[name][3] if len(JS_EXTRA[name]) > 3 else None   # RLIMIT_NOFILE of the ninja process
     root = tempfile.mkdtemp(prefix="rbjs.", dir=rb.SHM)
     out = {"scenario": name, "scenario_json": {"name": name, "js_extra": True}, "opi": 0, "tokens": tokens, "op": "ninja " + " ".join(nargs),
            "choices": [], "signal_at": None, "problems": []}
@@ -413,8 +419,12 @@ def _js_extra_case(args):
         os.write(fd, b"+" * tokens)
         env = dict(os.environ, MAKEFLAGS=" -j%d --jobserver-auth=fifo:%s" % (tokens + 1, fifo))
         # (to a file: nobody reads a pipe while ninja runs, and one error message here is 200 kB long)
+        def limit():
+            if nofile:
+                import resource
+                resource.setrlimit(resource.RLIMIT_NOFILE, (nofile, nofile))
         p = subprocess.Popen([ninja] + nargs, cwd=wd, env=env, stdout=open(os.path.join(root, "ninja.out"), "wb"),
-                             stderr=subprocess.STDOUT)
+                             stderr=subprocess.STDOUT, preexec_fn=limit)
 
         def count():
             try:
